@@ -46,9 +46,7 @@ META = dict(
          "two-call family aliasing between a caller-supplied map and the result (every call gets a freshly rendered "
          "document) and one default text shared by a []string and a []bool field (the process-wide cache of parsed "
          "slice defaults is keyed by the text alone: `[]bool default=[true]` used first makes `[]string "
-         "default=[true]` fail with a type mismatch - inherited behaviour, observed, not generated); env=V with V=0 "
-         "(option set env_0 exists but is not in the plan: an int64 field panics because every Int64 is taken for a "
-         "Duration - /tmp/fixes/C05-5.patch); native Go values (int, "
+         "default=[true]` fail with a type mismatch - inherited behaviour, observed, not generated); native Go values (int, "
          "float64) inside the map given to UnmarshalKey (json.Number is used, as the JSON layer produces). int and "
          "uint are taken as 64 bit. The numeric axioms of the specification (order of Points, literal attributes, "
          "kind bounds) are re-derived by the driver with math/big / strconv on every run (mismatch = exit 2). "
@@ -77,10 +75,9 @@ L = {"0": 1, "1": 2, "2": 3, "5": 4, "7": 5, "10": 6, "-1": 7, "127": 8, "128": 
      "1h": 57, "null": 58, "[1]": 59, "{x:1}": 60,
      "hello world": 61, "100%": 62, "a+b": 63, "x&y=z?w#v": 64, "nihao": 65, 'say "hi"': 66,
      '"010"': 67, '"0100"': 68, '"-010"': 69, '"007"': 70, '"0x1F"': 71, '"0b11"': 72, '"0o17"': 73, '"1_000"': 74}
-# "env_0" (env=V with V=0) is defined in the generator but left out of the plan: on an int64 field it makes
-# processFieldWithEnvValue panic (its switch takes every Int64 for a Duration; "0" is the one unit-less text
-# time.ParseDuration accepts) - reported with /tmp/fixes/C05-5.patch; add it to COMBO once that fix is in /repo.
-COMBO = ["er_m1", "er_1", "er_5", "er_7", "er_300", "eoc_1", "eoc_5", "eo_1", "eo_7", "defz", "defrout", "defoout"]
+# "env_0" (env=V with V=0): on an int64 field it made processFieldWithEnvValue panic (its switch took every Int64
+# for a Duration; "0" is the one unit-less text time.ParseDuration accepts) - repaired in /repo e9e021b.
+COMBO = ["env_0", "er_m1", "er_1", "er_5", "er_7", "er_300", "eoc_1", "eoc_5", "eo_1", "eo_7", "defz", "defrout", "defoout"]
 NUMK = [k for k in ALLK if k not in ('"bool"', '"string"', '"duration"')]
 ESC = ("hello world", "100%", "a+b", "x&y=z?w#v", "nihao", 'say "hi"')
 
